@@ -57,7 +57,8 @@ def tsJson (ann : Bool) (f : Field) (secs : Int) (nanos : Nat) (rfc date : Str) 
 def bytesJson (ann : Bool) (f : Field) (b : Bytes) : Json :=
   Json.str (bytesToStr (sebufBytesEncode (if ann then f.bytesEnc else 0) b))
 
-/-- a scalar (non-message) value of field `f`. -/
+/-- a scalar (non-message) value of field `f`. (An empty message under `empty_behavior` is one with
+no populated field — for a Timestamp: seconds = 0 and nanos = 0.) -/
 def scalarJson (rq : Request) (ann : Bool) (f : Field) : Val → Json
   | .int i => intJson (!f.kind.isInt64 || (ann && f.int64Enc == 2)) i
   | .bool b => Json.bool b
@@ -112,7 +113,7 @@ mutual
               | Json.obj kvs => kvs.map fun p => (f.flattenPrefix ++ p.1, p.2)
               | _ => []
             else if ann && f.emptyBehavior != 0 && f.card == .singular && f.kind == .message &&
-                    (match v with | .msg [] => true | _ => false) then
+                    (match v with | .msg [] => true | .ts 0 0 _ _ => true | _ => false) then
               match f.emptyBehavior with
               | 2 => [(f.json, Json.null)]
               | 3 => []
